@@ -44,6 +44,7 @@ from email.mime.application import MIMEApplication
 from email.encoders import encode_7or8bit
 
 from spyne import ValidationError
+from spyne.model.fault import Fault
 from spyne.util import six
 from spyne.model.binary import ByteArray, File
 from spyne.const.xml import NS_XOP
@@ -57,7 +58,8 @@ else:
 XPATH_NSDICT = dict(xop=NS_XOP)
 
 
-def _join_attachment(ns_soap_env, href_id, envelope, payload, prefix=True):
+def _join_attachment(ns_soap_env, href_id, envelope, payload, prefix=True,
+                                                            parser_kwargs=None):
     """Places the data from an attachment back into a SOAP message, replacing
     its xop:Include element or href.
 
@@ -72,7 +74,19 @@ def _join_attachment(ns_soap_env, href_id, envelope, payload, prefix=True):
     """
 
     # grab the XML element of the message in the SOAP body
-    soaptree = etree.fromstring(envelope)
+    if isinstance(envelope, six.text_type):
+        # email hands the part over as ascii+surrogateescape text; lxml refuses
+        # text that carries an encoding declaration
+        envelope = envelope.encode('ascii', 'surrogateescape')
+
+    try:
+        # the request must be parsed with the (safe) options of the protocol,
+        # not with lxml's defaults which expand entities.
+        soaptree = etree.fromstring(envelope,
+                               parser=etree.XMLParser(**(parser_kwargs or {})))
+    except etree.XMLSyntaxError as e:
+        raise Fault('Client.XMLSyntaxError', str(e))
+
     soapbody = soaptree.find("{%s}Body" % ns_soap_env)
 
     if soapbody is None:
@@ -101,7 +115,7 @@ def _join_attachment(ns_soap_env, href_id, envelope, payload, prefix=True):
     return etree.tostring(soaptree), num
 
 
-def collapse_swa(ctx, content_type, ns_soap_env):
+def collapse_swa(ctx, content_type, ns_soap_env, parser_kwargs=None):
     """
     Translates an SwA multipart/related message into an application/soap+xml
     message.
@@ -180,13 +194,14 @@ def collapse_swa(ctx, content_type, ns_soap_env):
         # Check for Content-ID and make replacement
         if cid:
             soapmsg, numreplaces = _join_attachment(
-                                             ns_soap_env, cid, soapmsg, payload)
+                                             ns_soap_env, cid, soapmsg, payload,
+                                             parser_kwargs=parser_kwargs)
 
         # Check for Content-Location and make replacement
         if cloc and not cid and not numreplaces:
             soapmsg, numreplaces = _join_attachment(
                                             ns_soap_env, cloc, soapmsg, payload,
-                                                                          False)
+                                            False, parser_kwargs=parser_kwargs)
 
     if soapmsg is None:
         raise ValidationError(None, "Invalid MtoM request")
